@@ -921,7 +921,7 @@ func (g *dmGen) structAttachmentPhase(b *dmBlk, s *dmScope) {
 	if g.chance(1, 3) {
 		x := g.fresh("any")
 		b.add("let %s: AnyStruct = %s", x, w)
-		b.add("%s = %s + ((%s as? %s)?.getType().identifier.length ?? 0)", acc, acc, x, a.base.t.String())
+		b.add("%s = %s + ((%s as? %s)?.getType()?.identifier?.length ?? 0)", acc, acc, x, a.base.t.String())
 	}
 }
 
